@@ -133,8 +133,11 @@ func cmdCheck(args []string) (status int) {
 				status = r.Emit(*tier, seed, start, *noEv)
 				return
 			}
+			// an analysis that breaks down on this tree has not decided the property for it: that is a
+			// failed obligation (never reached on the unchanged tree), not a silent exit
 			fmt.Fprintf(os.Stderr, "nasverif: checker failure: %v\n%s\n", e, debug.Stack())
-			status = 2
+			r.Fail("internal", "-", "analysis failure", 0, fmt.Sprintf("the analysis broke down on this tree (%v): no verdict, which counts as not shown", e), nil)
+			status = r.Emit(*tier, seed, start, *noEv)
 		}
 	}()
 	f(w, r, *tier)
